@@ -46,9 +46,9 @@ func init() {
 				}
 			}
 			return []Batch{
-				{Mode: "truncate-all", Count: 57 * 2 * hostileGroup, Exhaustive: true, Group: hostileGroup},
-				{Mode: "subst-all", Count: 57 * 4 * 64, Exhaustive: true, Group: 64},
-				{Mode: "seeded", Count: 60000},
+				{Mode: "truncate-all", Count: 57 * 6 * hostileGroup, Exhaustive: true, Group: hostileGroup},
+				{Mode: "subst-all", Count: 57 * 12 * 64, Exhaustive: true, Group: 64},
+				{Mode: "seeded", Count: 200000},
 			}
 		},
 		Run:  runHostile,
